@@ -230,10 +230,6 @@ func (m *Manager[T]) scan(id string) error {
 		return err
 	}
 
-	if len(nodes) == 0 {
-		return nil
-	}
-
 	found := make(map[string]bool)
 
 	// create new nodes
